@@ -926,3 +926,10 @@ func SortedKeys(h http.Header) []string {
 	sort.Strings(ks)
 	return ks
 }
+
+// ConnectErrorValid reports whether body is a Connect error in JSON with one
+// of the 16 defined code names.
+func ConnectErrorValid(body []byte) bool {
+	_, err := parseConnectError(body)
+	return err == nil
+}
